@@ -132,3 +132,10 @@ func init() {
 		r.add("DBGF", "debug", "x", "x", nil, nil, "")
 	})
 }
+
+func init() {
+	register("DBGV", "debug value receiver field address escapes", func(c *Ctx, r *Report) {
+		for _, s := range c.W.valueRecvFieldAddrEscapes() { fmt.Println(s) }
+		r.add("DBGV", "debug", "x", "x", nil, nil, "")
+	})
+}
